@@ -21,6 +21,31 @@ NOT_DECIDED = ('the matching semantics (which case is selected, evaluation order
 ASSUMPTIONS = ['the utility catalogue (sa/engine/cutil) parses MatchCase.c prototypes; helper names outside __Pyx_ (PyList_GetSlice) are CPython API and not checked by C31-SEC']
 EXEMPT = {}
 
+# ---- fourth round (sa/rules/sC31.py) -------------------------------------------------------------------------------------------------------------
+TECHNIQUE += ('; (round 4) evaluation of the node-building methods of MatchCaseNodes.py / Parsing.py / FlowControl.py on mock nodes by the checker\'s own evaluator (rules/pC28.MiniPy: '
+              'constructors build inspectable mock trees, nothing of the repository is imported) and inspection of the trees they build; path exploration (rules/pC17.Explorer, every '
+              '#if / Tempita variant) and linear-form / truth-table evaluation of the MatchCase.c helpers; comparison with tp_flags of the running interpreter\'s builtin types')
+DECIDES += (' ROUND 4 — C side: C31-SENTINEL "not found" markers are fresh object()s; C31-ABSENT absence (marker came back / AttributeError on a pattern-supplied name) returns 0, the '
+            'generated try/except of keyword lookups yields False/True; C31-UNCHK results of fallible C-API calls are tested before being dereferenced, a pointer found NULL is not '
+            'dereferenced; C31-COVER counted loops over the key / sub-subject arrays start at 0 or chain; C31-CAPACITY failure exits guarded by size-vs-needed are taken only for '
+            'size < needed, "nothing left" shortcuts only for size == needed; C31-SLICE every variant of the three star-capture helpers delivers x[start:end]; C31-DICTONLY helpers using '
+            'the dict-only C-API are reached only behind a dict check (C) / for dict-typed subjects (Python); C31-SETUSE duplicate-detection sets are filled; C31-TRISTATE match_self is '
+            'resolved before it is used as a truth value. '
+            'Python side: C31-TPFLAGS static sequence / mapping / match-self answers for builtin types equal the interpreter\'s tp_flags, the run-time helper tests the flag of its kind; '
+            'C31-PAIR key / keyword / position <-> sub-pattern <-> sub-subject pairing in mapping and class patterns incl. validate_keys, the counts handed to the helpers, presence of '
+            'the duplicate-key check; C31-ALTNUM numbering of OR alternatives (writer = reader, never 0), first matching alternative also with compile-time constant alternatives, '
+            'capturing OR patterns are never "simple"; C31-SEQ indices / star slice / length test for every star position up to 4 sub-patterns, length of memoryview / ctuple subjects, '
+            'argument order of the slice helper; C31-VALOP `is` exactly for parser-marked constants; C31-REFACTOR refactor_cases keeps order, guard and body over all 340 case-kind '
+            'sequences of length <= 4; C31-EXIT goto end label after a matched body, one end label, order comparison -> bindings -> guard -> body; C31-NONE typed subjects are tested '
+            '`is not None`; C31-ONCE non-literal subject coerced to a temp, constant cases dropped only when known false; C31-VALID irrefutability / unreachable cases / OR name sets / '
+            'duplicate names, keywords, literal keys / several stars decided as CPython\'s compiler does; C31-CFG guard-false and body-exit edges of the control-flow graph; C31-PARSE '
+            '`*name` yields a starred capture, the sign of a numeric literal pattern is kept.')
+NOT_DECIDED += (' ROUND 4 — still not decided: what the generated C does for a concrete subject (the rules decide the shape of the comparison tree and of each helper, not their '
+                'composition at run time); reference counting of sub-subjects; the <3.10 ABC fallback (__Pyx_MatchCase_ABCCheck); type inference of captured names; memoryview '
+                'star captures (MatchCase_Cy.pyx); evaluation order inside one pattern beyond the orders named above. Written but NOT registered (pending findings): C31-NULLPATH '
+                '(FINDING_1: a non-AttributeError failure of a positional attribute lookup reaches Py_DECREF(NULL)), C31-ASBIND (FINDING_3: `case 1.0 as x` binds the literal).')
+MUTANTS_ROUND4 = 'mutants/C31/*: 49 breaking (48 reported, 1 declined: needs the pending C31-NULLPATH) + 8 behaviour-preserving (all silent); first-run figures per wave in /tmp/strengthen4/G12/REPORT.md'
+
 # Single-edit variants tried on a scratch copy: (file, edit, rule/construct that reported it); all 25 were reported with exit 1.
 MUTATIONS = [
     ('Cython/Compiler/MatchCaseNodes.py', 'MatchValuePatternNode: rename get_main_pattern_targets (override lost)', 'C31-L7 MatchValuePatternNode.get_main_pattern_targets'),
@@ -60,6 +85,12 @@ SILENT_EDITS = [   # behaviour-preserving, all exit 0
 
 
 def run(ctx):
-    from ..rules import parlists
+    from ..rules import parlists, sC31
+    sym = sC31.Sym(ctx)
+    # sC31.rule_nullpath(ctx) is NOT registered: pending finding (it reports __Pyx__MatchCase_ClassPositional of the unmodified tree, see FINDING_1)
+    # sC31.rule_asbind(ctx, sym) is NOT registered: pending finding (`case 1.0 as x` binds the literal instead of the subject, see FINDING_3)
     return [pC31.rule_hooks(ctx), pC31.rule_temps(ctx), typed.rule_I3(ctx, modules=('MatchCaseNodes',), floor=10),
-            pC31.rule_forwarders(ctx), pC31.rule_sections(ctx), pC31.rule_cfa(ctx), parlists.rule_par(ctx)]
+            pC31.rule_forwarders(ctx), pC31.rule_sections(ctx), pC31.rule_cfa(ctx), parlists.rule_par(ctx),
+            sC31.rule_sentinel(ctx), sC31.rule_unchecked(ctx), sC31.rule_absent(ctx, sym), sC31.rule_cover(ctx), sC31.rule_capacity(ctx), sC31.rule_valid(ctx, sym),
+            sC31.rule_tpflags(ctx, sym), sC31.rule_pair(ctx, sym), sC31.rule_altnum(ctx, sym), sC31.rule_seq(ctx, sym), sC31.rule_valop(ctx, sym),
+            sC31.rule_refactor(ctx, sym), sC31.rule_exit(ctx, sym), sC31.rule_none(ctx, sym), sC31.rule_dictonly(ctx, sym), sC31.rule_slice(ctx), sC31.rule_once(ctx, sym), sC31.rule_setuse(ctx), sC31.rule_cfg(ctx), sC31.rule_tristate(ctx), sC31.rule_parse(ctx)]
